@@ -492,6 +492,7 @@ def call_ext(interp, ext, node, args, kwargs, st):
             interp.newobj += 1
             from .values import ObjRef
             o = ObjRef(a0.obj.cls, f"new#copy{interp.newobj}")
+            interp.emit(st, "copyobj", node, new=o.oid, src=a0.obj.oid, cls=a0.obj.cls, shallow=(ext == "copy.copy"))
             if ext == "copy.copy":
                 # shallow copy: every attribute not rebound afterwards is shared with the original
                 st.comp.setdefault("__shallow", {})[o.oid] = (a0.obj.oid, frozenset())
